@@ -1071,3 +1071,103 @@ def run_recorded(ctx, pid, name, n, length, ops, spelling="wide", keys=("a", "b"
     if outs and outs[0][0]["ev"]:
         ctx.sample({"kind": "recorded real execution (validated by TLC)", "first_events": [[e["op"], e["args"], e["res"]] for e in outs[0][0]["ev"][:8]]})
     return len(rejected)
+
+
+# ======================================================================================================
+# scale scenarios: code paths that only exist for large workspaces (chunked reading of >= 2000 state points, thread pools)
+def large_workspace(ctx, pid, njobs=2103, extra=1507):
+    """The model's post-conditions of update_cache / open-by-id / listing / check / repair evaluated on a workspace that is
+    large enough for the chunked code paths (the bounded model never has more than a handful of jobs)."""
+    import signac
+    rnd = random.Random(ctx.seed + 77)
+    root = ctx.mkdtemp("large")
+    signac.init_project(root)
+    wd = os.path.join(root, "workspace")
+    truth = {}
+
+    def add(k0, k1):
+        for k in range(k0, k1):
+            sp = {"i": k, "g": k % 7, "t": ["x", k % 3]} if k % 5 else {"i": k, "n": {"x": float(k)}}
+            jid = core.my_id(sp)
+            os.makedirs(os.path.join(wd, jid))
+            with open(os.path.join(wd, jid, W.SP_FILE), "w") as f:
+                json.dump(sp, f)
+            truth[jid] = sp
+
+    def cache_exact(tag):
+        raw = core.read_cache_file(root)
+        ok = raw is not None and raw.keys() == truth.keys() and all(W._type_exact(raw[k], truth[k]) for k in truth)
+        ctx.count(("large", tag, len(truth)), traces=1)
+        if pid == "C08" and not ok:
+            wrong = [k for k in truth if raw is None or k not in raw or not W._type_exact(raw[k], truth[k])]
+            extra_ = [k for k in (raw or {}) if k not in truth]
+            ctx.violation("update-cache-not-exact:large-workspace", "%s: after update_cache() on %d jobs the cache file is wrong for %d ids, lists %d ids that do not exist (e.g. %s)" % (
+                tag, len(truth), len(wrong), len(extra_), (wrong or extra_)[:1]), {"kind": "large-workspace", "step": tag, "njobs": len(truth)})
+        return ok
+
+    def session_view(tag):
+        p = signac.Project(root)
+        ids = sorted(j.id for j in p)
+        if len(p) != len(truth) or ids != sorted(truth):
+            ctx.violation("listing:large-workspace", "%s: a fresh session lists %d jobs, the workspace has %d" % (tag, len(ids), len(truth)), {"kind": "large-workspace", "step": tag})
+        bad = 0
+        for jid in rnd.sample(sorted(truth), 300):
+            sp = p.open_job(id=jid).statepoint()
+            if core.my_id(sp) != jid or not W._type_exact(sp, truth[jid]):
+                bad += 1
+        if bad:
+            sig = {"C08": "cache-not-transparent:large-workspace", "C09": "accepts-wrong-statepoint:large-workspace"}.get(pid, "fresh-handle-sp:large-workspace")
+            ctx.violation(sig, "%s: a fresh session returns a wrong state point for %d of 300 jobs opened by id" % (tag, bad), {"kind": "large-workspace", "step": tag})
+        for k in rnd.sample(range(njobs), 5):
+            want = sorted(j for j, sp in truth.items() if sp.get("i") == k)
+            got = sorted(j.id for j in signac.Project(root).find_jobs({"i": k}))
+            if got != want and pid in ("C08", "C03"):
+                ctx.violation("cache-not-transparent:large-workspace:query" if pid == "C08" else "listing:large-workspace:query",
+                              "%s: find_jobs({'i': %d}) returns %s, expected %s" % (tag, k, [g[:6] for g in got], [w_[:6] for w_ in want]), {"kind": "large-workspace", "step": tag})
+        ctx.count(("large-view", tag), traces=1)
+
+    add(0, njobs)
+    session_view("no-cache")
+    r1 = signac.Project(root).update_cache()
+    cache_exact("first-update")
+    r2 = signac.Project(root).update_cache()
+    if pid == "C08" and r2 is not None:
+        ctx.violation("second-update-cache-not-noop:large-workspace", "a second update_cache() on %d jobs returned %r" % (len(truth), r2), {"kind": "large-workspace", "step": "second"})
+    session_view("exact-cache")
+    # stale cache: some jobs vanish, many more appear
+    for jid in rnd.sample(sorted(truth), 40):
+        shutil.rmtree(os.path.join(wd, jid))
+        del truth[jid]
+    add(njobs, njobs + extra)
+    session_view("stale-cache")
+    signac.Project(root).update_cache()
+    cache_exact("update-of-stale")
+    session_view("refreshed-cache")
+    if pid == "C09":
+        listing = [d for d in os.listdir(wd)]
+        victims = sorted({listing[0], listing[len(listing) // 2], listing[-1], sorted(listing)[len(listing) * 3 // 4]})
+        for n, v in enumerate(victims):
+            fn = os.path.join(wd, v, W.SP_FILE)
+            blob = open(fn, "rb").read()
+            with open(fn, "wb") as f:
+                f.write(blob[:-3] if n % 2 else blob.replace(b'"i": ', b'"i": 9', 1))
+        try:
+            signac.Project(root).check()
+            got = []
+        except signac.errors.JobsCorruptedError as e:
+            got = sorted(e.job_ids)
+        ctx.count(("large-check", len(truth)), traces=1)
+        if got != victims:
+            ctx.violation("check-inexact:large-workspace", "check() on %d jobs names %s, damaged are %s" % (len(truth), [g[:6] for g in got], [v[:6] for v in victims]),
+                          {"kind": "large-workspace", "step": "check"})
+        try:
+            signac.Project(root).repair()
+            rr = "ok"
+        except signac.errors.JobsCorruptedError as e:
+            rr = sorted(e.job_ids)
+        still = [v for v in victims if not valid_raw(root, v)]
+        if still or rr != "ok":
+            ctx.violation("repair-did-not-restore:large-workspace", "with an exact cache file repair() on %d jobs left %s damaged (returned %s)" % (len(truth), [s[:6] for s in still], rr),
+                          {"kind": "large-workspace", "step": "repair"})
+    ctx.sample({"kind": "large workspace scenario", "jobs": len(truth), "steps": ["raw creation of %d jobs" % njobs, "update_cache", "second update_cache", "remove 40 / add %d" % extra, "update_cache", "fresh-session views"]})
+    shutil.rmtree(root, ignore_errors=True)
